@@ -103,6 +103,7 @@ type Bot struct {
 	NextWid   uint64
 	NextReq   uint64 // unlock / claim ids
 	Pending   []uint64 // withdrawal ids believed pending
+	Refunded  []uint64 // withdrawal ids already refunded (bad address or approved cancellation)
 	Canceling []uint64
 	NewKeys   int
 	Votes     []StoredVote // every vote ever produced (C02's vote pool)
@@ -110,8 +111,9 @@ type Bot struct {
 }
 
 type StoredVote struct {
-	Msg  sdk.Msg
-	Desc string
+	Msg      sdk.Msg
+	Desc     string
+	Accepted bool // a transaction carrying this vote succeeded
 }
 
 func (b *Bot) clone() *Bot {
@@ -131,6 +133,7 @@ func (b *Bot) clone() *Bot {
 	}
 	c.Pending = append([]uint64{}, b.Pending...)
 	c.Canceling = append([]uint64{}, b.Canceling...)
+	c.Refunded = append([]uint64{}, b.Refunded...)
 	c.Votes = append([]StoredVote{}, b.Votes...)
 	for k, v := range b.Created {
 		c.Created[k] = v
@@ -149,6 +152,7 @@ type World struct {
 	Aux     Cloner // monitor-owned history state, forked with the world
 	seqOff         uint64 // voted transactions assembled earlier in the same block (when chained)
 	widOff, reqOff uint64 // ids handed out to the requests of the block being assembled
+	lastNote       string // note about the message built last (replays: first-use | reuse)
 	prov           map[uint64]*sim.BtcBlock // blocks voted by earlier transactions of the block being assembled
 }
 
@@ -440,6 +444,17 @@ func (w *World) BuildMsg(e Event) (msg sdk.Msg, commit func()) {
 		m.Vote = w.Vote(m.MethodName(), m.VoteSigDoc())
 		return m, func() { b.Txs = append(b.Txs, tx) }
 	case "tx:approve":
+		if e.Var == "again" {
+			// a late / duplicate approval of withdrawals that were refunded already
+			if len(w.Bot.Refunded) == 0 {
+				return nil, nil
+			}
+			ids := append([]uint64{}, w.Bot.Refunded...)
+			if len(ids) > 32 {
+				ids = ids[:32]
+			}
+			return &bitcointypes.MsgApproveCancellation{Proposer: rel.Proposer, Id: ids}, func() {}
+		}
 		if len(w.Bot.Canceling) == 0 {
 			return nil, nil
 		}
@@ -447,7 +462,10 @@ func (w *World) BuildMsg(e Event) (msg sdk.Msg, commit func()) {
 		if len(ids) > 32 {
 			ids = ids[:32]
 		}
-		return &bitcointypes.MsgApproveCancellation{Proposer: rel.Proposer, Id: ids}, func() { w.Bot.Canceling = w.Bot.Canceling[len(ids):] }
+		return &bitcointypes.MsgApproveCancellation{Proposer: rel.Proposer, Id: ids}, func() {
+			w.Bot.Canceling = w.Bot.Canceling[len(ids):]
+			w.Bot.Refunded = append(w.Bot.Refunded, ids...)
+		}
 	case "tx:newpubkey":
 		k := sim.NewBtcKey(fmt.Sprintf("rotated-%d", w.Bot.NewKeys), false)
 		if e.Var == "existing" {
@@ -464,17 +482,31 @@ func (w *World) BuildMsg(e Event) (msg sdk.Msg, commit func()) {
 		m := &bitcointypes.MsgNewConsolidation{Proposer: rel.Proposer, NoWitnessTx: tx}
 		m.Vote = w.Vote(m.MethodName(), m.VoteSigDoc())
 		w.Bot.Votes = append(w.Bot.Votes, StoredVote{Msg: m, Desc: fmt.Sprintf("consolidation@seq%d", m.Vote.Sequence)})
-		return m, func() {}
+		idx := len(w.Bot.Votes) - 1
+		if e.Var == "withhold" {
+			return nil, nil // the vote exists (it was collected) but is not submitted now
+		}
+		return m, func() { w.Bot.Votes[idx].Accepted = true }
 	case "tx:replay-consolidation":
 		for i := len(w.Bot.Votes) - 1; i >= 0; i-- {
 			if old, ok := w.Bot.Votes[i].Msg.(*bitcointypes.MsgNewConsolidation); ok {
 				m := &bitcointypes.MsgNewConsolidation{Proposer: old.Proposer, NoWitnessTx: old.NoWitnessTx,
 					Vote: &relayertypes.Votes{Sequence: old.Vote.Sequence, Epoch: old.Vote.Epoch, Voters: old.Vote.Voters, Signature: old.Vote.Signature}}
+				_, seq := w.Relayer()
+				// presenting a collected vote for the first time in exactly the context it was signed
+				// for is a legitimate use, anything else is a reuse
+				w.lastNote = "reuse"
+				if !w.Bot.Votes[i].Accepted && old.Vote.Sequence == seq+w.seqOff && old.Vote.Epoch == rel.Epoch && old.Proposer == rel.Proposer && len(old.Vote.Voters) >= 0 && sameMembers(w, old) {
+					w.lastNote = "first-use"
+				}
 				if e.Var == "rewrite-context" {
-					_, seq := w.Relayer()
+					if m.Vote.Sequence != seq || m.Vote.Epoch != rel.Epoch || m.Proposer != rel.Proposer {
+						w.lastNote = "reuse"
+					}
 					m.Vote.Sequence, m.Vote.Epoch, m.Proposer = seq, rel.Epoch, rel.Proposer
 				}
-				return m, func() {}
+				idx := i
+				return m, func() { w.Bot.Votes[idx].Accepted = true }
 			}
 		}
 		return nil, nil
@@ -552,6 +584,8 @@ func (w *World) ApplyReq(e Event) (commit func()) {
 			w.Bot.NextWid += uint64(e.N)
 			if e.Var != "bad-address" {
 				w.Bot.Pending = append(w.Bot.Pending, ids...)
+			} else {
+				w.Bot.Refunded = append(w.Bot.Refunded, ids...)
 			}
 		}
 	case "req:cancel":
@@ -646,6 +680,7 @@ type Result struct {
 	HeightBefore int64
 	Skipped      []string // events not enabled in this state
 	SimBlock     *sim.Block
+	Notes               []string // per built relayer tx: harness note (replays: first-use | reuse)
 	AbandonedProposals  [][][]byte
 	AbandonedSysTxs     [][][]byte
 	AbandonChangedState bool
@@ -682,11 +717,13 @@ func (w *World) Run(b ABlock) *Result {
 			reqCommits = append(reqCommits, w.ApplyReq(e))
 			continue
 		}
+		w.lastNote = ""
 		msg, commit := w.BuildMsg(e)
 		if msg == nil {
 			res.Skipped = append(res.Skipped, e.String())
 			continue
 		}
+		res.Notes = append(res.Notes, w.lastNote)
 		tx := w.N.SignFor(signer.Key, seqOff, 0, msg)
 		seqOff++
 		res.RelayerTxs = append(res.RelayerTxs, tx)
@@ -773,6 +810,21 @@ func (w *World) Run(b ABlock) *Result {
 	}
 	res.commitBot(res.Finalize)
 	return res
+}
+
+// sameMembers: the vote was signed by the members that are still the current group (votes are
+// collected from all members, so a membership change invalidates it).
+func sameMembers(w *World, old *bitcointypes.MsgNewConsolidation) bool {
+	rel, _ := w.Relayer()
+	return sim.Bitmap(marksUpTo(len(rel.Voters)), 8)[0] == old.Vote.Voters[0]
+}
+
+func marksUpTo(n int) []int {
+	var m []int
+	for i := 0; i < n; i++ {
+		m = append(m, i)
+	}
+	return m
 }
 
 func without(list, drop []uint64) []uint64 {
